@@ -114,10 +114,13 @@ def run_neutral_patch(args: Tuple[str, str, str]) -> Dict:
 
 def neutral_for(prop: str) -> List[str]:
     """The five behaviour-preserving edits written for this property's anchors (see DESIGN 8.7)."""
-    d = os.path.join(VERIF_ROOT, "neutral", prop + "n")
-    if not os.path.isdir(d):
-        return []
-    return [os.path.join(prop + "n", f) for f in sorted(os.listdir(d)) if f.endswith(".diff")]
+    out = []
+    root = os.path.join(VERIF_ROOT, "neutral")
+    for sub in sorted(os.listdir(root)) if os.path.isdir(root) else []:
+        # <prop>n = round 1, <prop>m = round 2 ("correct versions of refactors that are easy to get wrong")
+        if sub[:3] == prop and os.path.isdir(os.path.join(root, sub)):
+            out += [os.path.join(sub, f) for f in sorted(os.listdir(os.path.join(root, sub))) if f.endswith(".diff")]
+    return out
 
 
 def seeded_for(prop: str) -> List[str]:
